@@ -29,9 +29,15 @@ Open Scope list_scope.
 Inductive rw := R | W.
 
 Inductive stmt :=
-| Lock (m : string)                 (* recv.mu.Lock() / RLock()  (RLock treated as Lock: stricter) *)
-| Unlock (m : string)               (* recv.mu.Unlock() / RUnlock() *)
+| Lock (m : string)                 (* recv.mu.Lock() *)
+| Unlock (m : string)               (* recv.mu.Unlock() *)
 | DeferUnlock (m : string)          (* defer recv.mu.Unlock() *)
+| RLock (m : string)                (* recv.mu.RLock(): for the discipline below it is a Lock (stricter:
+                                        acquire only when not owning ...), but it does NOT exclude other
+                                        readers -- what a function that read-locks may do is restricted
+                                        separately, see [shared_ok] *)
+| RUnlock (m : string)
+| DeferRUnlock (m : string)
 | Use (field : string) (a : rw)     (* recv.field read, written, called through or passed on *)
 | Call (callee : string)            (* call of a function / method declared in the same file *)
 | Go (body : list stmt)             (* go statement: a new thread, starts without any lock *)
@@ -153,9 +159,9 @@ Section Elab.
           end
       end in
     match s with
-    | Lock m' => Some (if String.eqb m' m then [CLock] else [])
-    | Unlock m' => Some (if String.eqb m' m then [CUnlock] else [])
-    | DeferUnlock m' => Some (if String.eqb m' m then [CDeferUnlock] else [])
+    | Lock m' | RLock m' => Some (if String.eqb m' m then [CLock] else [])
+    | Unlock m' | RUnlock m' => Some (if String.eqb m' m then [CUnlock] else [])
+    | DeferUnlock m' | DeferRUnlock m' => Some (if String.eqb m' m then [CDeferUnlock] else [])
     | Use f a => Some (if guarded_by f m || (match a with R => locked_use f m | W => false end)
                        then [CUse] else [])
     | Call f => match call f with Some b => Some [CScope b] | None => None end
@@ -378,9 +384,54 @@ Definition neutral_list (l : list cstmt) : bool := forallb neutral l.
 
 Definition is_unknown (s : stmt) : bool := match s with Unknown _ => true | _ => false end.
 Definition is_lock_op (s : stmt) : bool :=
-  match s with Lock _ | Unlock _ | DeferUnlock _ => true | _ => false end.
+  match s with
+  | Lock _ | Unlock _ | DeferUnlock _ | RLock _ | RUnlock _ | DeferRUnlock _ => true
+  | _ => false
+  end.
+Definition is_rlock (s : stmt) : bool := match s with RLock _ => true | _ => false end.
 Definition mutex_known (s : stmt) : bool :=
-  match s with Lock m | Unlock m | DeferUnlock m => mem m all_mutexes | _ => true end.
+  match s with
+  | Lock m | Unlock m | DeferUnlock m | RLock m | RUnlock m | DeferRUnlock m => mem m all_mutexes
+  | _ => true
+  end.
+
+(* ---- read locks ----
+   The trace semantics and the global theorem model ONE holder at a time; an RWMutex admits several
+   readers.  A function that read-locks is therefore only accepted if nothing it does, callees
+   included, needs exclusion from other readers: it writes no guarded field, and it does not touch
+   the transport handles at all (every use of conn / serialPort is part of an exchange or of
+   Close / Connect, which must be carried out one at a time: exclusive lock only).  Server.Addr
+   (RLock; read listener) is of this kind.  Coarse on purpose: the whole function is judged, not
+   only its read-locked region. *)
+Definition exclusive_use_fields : list string := [ "Client.conn"; "SerialClient.serialPort" ].
+
+Fixpoint uses_stmt (call : string -> list (string * rw)) (s : stmt) {struct s} : list (string * rw) :=
+  let fix ul (l : list stmt) : list (string * rw) :=
+    match l with [] => [] | x :: r => uses_stmt call x ++ ul r end in
+  let fix ull (ls : list (list stmt)) : list (string * rw) :=
+    match ls with [] => [] | a :: r => ul a ++ ull r end in
+  match s with
+  | Use f a => [(f, a)]
+  | Call g => call g
+  | Branch alts => ull alts
+  | Loop b => ul b
+  | _ => []
+  end.
+Fixpoint uses_depth (p : program) (depth : nat) (f : string) : list (string * rw) :=
+  match depth with
+  | O => []
+  | S d => match find_fn (p_funcs p) f with
+           | Some g => flat_map (uses_stmt (uses_depth p d)) (fn_body g)
+           | None => []
+           end
+  end.
+Definition shared_use_ok (u : string * rw) : bool :=
+  negb (mem (fst u) exclusive_use_fields) &&
+  match snd u with W => negb (is_guarded (fst u)) | R => true end.
+Definition shared_ok (p : program) : bool :=
+  forallb (fun f => if any_list is_rlock (fn_body f)
+                    then forallb shared_use_ok (flat_map (uses_stmt (uses_depth p call_depth)) (fn_body f))
+                    else true) (p_funcs p).
 
 Definition all_go_bodies (p : program) : list (list stmt) :=
   flat_map (fun f => go_bodies_list (fn_body f)) (p_funcs p).
@@ -424,12 +475,13 @@ Definition no_unknown (p : program) : bool :=
 Definition no_foreign (p : program) : bool :=
   match p_foreign p with [] => true | _ => false end.
 
-(* the lock discipline of the file: nothing unrecognised, only known mutexes, no reference to the
+(* the lock discipline of the file: read locks only in functions that need no exclusion; nothing
+   unrecognised, only known mutexes, no reference to the
    structs' fields / unexported methods from other files, and for every mutex: every function has a
    definite entry mode, everything callable through a function value is neutral, and every thread
    body (exported function, go statement) is checked from "lock free" *)
 Definition locks_ok (p : program) : bool :=
-  no_unknown p && no_foreign p && forallb (mutex_ok p) all_mutexes.
+  no_unknown p && no_foreign p && shared_ok p && forallb (mutex_ok p) all_mutexes.
 
 (* ---- configuration fields: written only before the object is shared ---- *)
 Definition is_go_or_loop (s : stmt) : bool := match s with Go _ | Loop _ => true | _ => false end.
